@@ -411,6 +411,109 @@ def check_ov(case, rec=None):
     return fails
 
 
+# ------------------------------------------------------------------ dense detector file -> segmenter -> sparse file
+
+@st.composite
+def segcases(draw):
+    return dict(nfr=draw(st.integers(1, 9)), ns=draw(st.integers(6, 40)), nf=draw(st.integers(6, 56)),
+                seed=draw(st.integers(0, 2 ** 31 - 1)), cut=draw(st.sampled_from([0, 5, 100])),
+                pixels_in_spot=draw(st.sampled_from([1, 1, 3, 2])), masked=draw(st.booleans()),
+                dtype=draw(st.sampled_from(["uint16", "uint16", "uint32"])), empty=draw(st.booleans()))
+
+
+def check_seg(case, rec=None):
+    """frames in a detector HDF5 file, segmented by sinograms.lima_segmenter.segment_lima into the sparse file layout,
+    read back frame by frame with SparseScan: exactly the pixels above the cut, on active pixels, in blobs of at least
+    pixels_in_spot pixels (8-connected), each with its own value"""
+    import os, io, contextlib, h5py
+    from scipy import ndimage
+    from ImageD11 import sparseframe, cImageD11
+    from ImageD11.sinograms import lima_segmenter
+    rng = np.random.RandomState(case["seed"] % (2 ** 32))
+    nfr, ns, nf = case["nfr"], case["ns"], case["nf"]
+    frames = np.zeros((nfr, ns, nf), case["dtype"])
+    for k in range(nfr):
+        if case["empty"] and k == nfr // 2:
+            continue
+        for _ in range(rng.randint(1, 7)):
+            r, c = rng.randint(0, ns), rng.randint(0, nf)
+            h, w = rng.randint(1, 4), rng.randint(1, 4)
+            frames[k, r:r + h, c:c + w] = rng.randint(1, 2000, size=frames[k, r:r + h, c:c + w].shape)
+        frames[k][rng.random_sample((ns, nf)) < 0.02] = rng.randint(1, 300)
+    mask = None
+    if case["masked"]:
+        mask = np.ones((ns, nf), np.uint8)
+        mask[:, rng.randint(0, nf)] = 0
+        mask[rng.randint(0, ns), :] = 0
+    tmp = os.environ.get("VERIF_TMP", ".")
+    src = os.path.join(tmp, "c14_seg_src_%d.h5" % os.getpid())
+    dst = os.path.join(tmp, "c14_seg_dst_%d.h5" % os.getpid())
+    for f in (src, dst):
+        if os.path.exists(f):
+            os.remove(f)
+    dsname = "1.1/measurement/eiger"
+    with h5py.File(src, "w") as h:
+        h[dsname] = frames
+    fails = []
+
+    def run():
+        opts = lima_segmenter.SegmenterOptions(cut=case["cut"], pixels_in_spot=case["pixels_in_spot"])
+        opts.setup()
+        opts.mask = None if mask is None else mask.copy()
+        lima_segmenter.OPTIONS = opts
+        with contextlib.redirect_stdout(io.StringIO()):
+            lima_segmenter.segment_lima((src, dst, dsname))
+        return sparseframe.SparseScan(dst, dsname)
+    ok, scan = guard(run)
+    if not ok:
+        if isinstance(scan, OSError) and "filter returned failure" in str(scan):
+            if rec is not None:
+                rec.exclude("h5py/HDF5 lzf read failure of this sandbox (see tools/h5py_lzf_overwrite.py)")
+        else:
+            fails.append(exc_failure("lima_segmenter.segment_lima / SparseScan", scan))
+    else:
+        s8 = np.ones((3, 3), int)
+        kept = 0
+        for k in range(nfr):
+            sel = frames[k] > case["cut"]
+            if mask is not None:
+                sel &= mask > 0
+            if case["pixels_in_spot"] > 1 and sel.any():
+                lab, n = ndimage.label(sel, structure=s8)
+                size = np.bincount(lab.ravel(), minlength=n + 1)
+                sel &= size[lab] >= case["pixels_in_spot"]
+            exp = np.where(sel, frames[k], 0).astype(np.float64)
+            kept += int(sel.sum())
+            ok, fr = guard(scan.getframe, k)
+            if not ok:
+                fails.append(exc_failure("SparseScan.getframe", fr))
+                break
+            if fr is None:
+                if sel.any():
+                    fails.append(fail("segmenter", "frame %d of %d: nothing stored, %d pixels expected (cut %g, "
+                                      "pixels_in_spot %d)" % (k, nfr, int(sel.sum()), case["cut"],
+                                                              case["pixels_in_spot"]), fn="segment_lima"))
+                    break
+                continue
+            got = np.zeros((ns, nf))
+            got[fr.row, fr.col] = fr.pixels["intensity"]
+            if fr.nnz != int(sel.sum()) or cImageD11.sparse_is_sorted(fr.row, fr.col) != 0 or \
+                    not np.array_equal(got, exp):
+                fails.append(fail("segmenter", "frame %d of %d read back from the segmented file: %d pixels stored, %d "
+                                  "expected, %d pixels of the image differ (cut %g, pixels_in_spot %d, mask %s)" %
+                                  (k, nfr, fr.nnz, int(sel.sum()), int((got != exp).sum()), case["cut"],
+                                   case["pixels_in_spot"], mask is not None), fn="segment_lima"))
+                break
+        if rec is not None:
+            rec.note("segmenter_pixels_kept", kept, "sum")
+    for f in (src, dst):
+        if os.path.exists(f):
+            os.remove(f)
+    if rec is not None:
+        rec.case(case, nfr >= 2, ["segmenter", "pixels_in_spot:%d" % case["pixels_in_spot"]])
+    return fails
+
+
 # ------------------------------------------------------------------ scan level: props / pairrow / pairscans
 
 @st.composite
@@ -561,10 +664,13 @@ def run_shard(rec):
     hyp_run(rec, "roundtrip", rtcases(), lambda c: check_rt(c, rec), max_examples=1000 if quick else 8000)
     hyp_run(rec, "overlaps", ovcases(), lambda c: check_ov(c, rec), max_examples=1000 if quick else 8000)
     hyp_run(rec, "overlaps_big", ovbigcases(), lambda c: check_ov(c, rec), max_examples=4 if quick else 30)
+    hyp_run(rec, "segmenter", segcases(), lambda c: check_seg(c, rec), max_examples=40 if quick else 400)
     hyp_run(rec, "scan", scancases(), lambda c: check_scan(c, rec), max_examples=60 if quick else 600)
 
 
 def replay(sub, case, rec):
     if sub == "scan":
         return check_scan(case, rec)
+    if sub == "segmenter":
+        return check_seg(case, rec)
     return check_ov(case, rec) if sub in ("overlaps", "overlaps_big") else check_rt(case, rec)
